@@ -10,7 +10,6 @@
 //   vps  N= D= X= k= rnd= q=           -> items= tree= r=q:i@d,i@d;..  tsne::VpTree create + search
 //   exg  N= D= P= Y=                   -> dC=<N*D>                     computeExactGradient
 //   bhg  N= D= row= col= val= Y= theta= -> dC=<N*D>                    computeGradient
-//   kl   N= P= Y=                      -> C=<evaluateError(P,Y,N)>
 //   (the public-API smoke cases live in c17_api.cpp: tapkee.hpp is slow to compile)
 #include <algorithm>
 #include <cfloat>
@@ -85,10 +84,6 @@ struct tapkee_verif_access
     static void bhg(tsne::TSNE& t, int* r, int* c, double* v, double* Y, int N, int D, double* dC, double theta)
     {
         t.computeGradient(NULL, r, c, v, Y, N, D, dC, theta);
-    }
-    static double kl(tsne::TSNE& t, double* P, double* Y, int N)
-    {
-        return t.evaluateError(P, Y, N);
     }
 };
 
@@ -246,15 +241,6 @@ int main()
             std::unique_ptr<double[]> dC(new double[(size_t)N * D]);
             tapkee_verif_access::exg(t, Pb.get(), Yb.get(), N, D, dC.get());
             out << "dC=" << nums(dC.get(), (size_t)N * D);
-        }
-        else if (topic == "kl")
-        {
-            std::vector<double> P = vh::parse_nums(f["P"]);
-            std::vector<double> Y = vh::parse_nums(f["Y"]);
-            std::unique_ptr<double[]> Pb(new double[P.size()]), Yb(new double[Y.size()]);
-            std::copy(P.begin(), P.end(), Pb.get());
-            std::copy(Y.begin(), Y.end(), Yb.get());
-            out << "C=" << vh::num(tapkee_verif_access::kl(t, Pb.get(), Yb.get(), N));
         }
         else if (topic == "bhg")
         {
